@@ -1,6 +1,7 @@
 use crate::engine::{Entry, entry};
 
 pub mod c32;
+pub mod packet;
 pub mod server;
 
 pub fn registry() -> Vec<Entry> {
@@ -12,6 +13,9 @@ pub fn registry() -> Vec<Entry> {
         entry::<server::C19>(false),
         entry::<server::C21>(false),
         entry::<server::C22>(false),
+        entry::<packet::C23>(true),
+        entry::<packet::C24>(true),
+        entry::<packet::C25>(false),
         entry::<c32::C32>(false),
     ]
 }
